@@ -3,6 +3,15 @@ def _nontrivial(rec):
     return rec["verdict"] != "na" and rec["impl"].startswith("ok ") and len(rec["impl"]) >= 3 + 16
 
 
+def _compare(rec):
+    # exact on the bytes; the model's head says by which route it reproduced them (`ok`: schema encoder, `ok-tree`:
+    # independent reader only, see notes/design/C03.md)
+    i, m = rec["impl"], rec["model"]
+    if m.startswith("ok-tree "):
+        return i == "ok " + m[len("ok-tree "):]
+    return i == m
+
+
 CFG = {
     "level": "proof",
     "driver_gen": True,
@@ -25,7 +34,7 @@ CFG = {
                   "proved generically is canonical form, set sites and table agreement (C03_conforms_partial).",
     "theorems": ["C03_wellformed", "C03_canonical", "C03_canonical_ledger", "C03_sets", "C03_set_site", "C03_tables", "C03_bytes_of_tree", "C03_fuel_monotone", "C03_conforms_partial"],
     "allowed_axioms": [],
-    "compare": "exact",
+    "compare": _compare,
     "nontrivial": _nontrivial,
     "gen_timeout": 1500,
     "rule": "stream rt: per type 30 (thorough 300) schema-walk values biased to Conway-valid ones, model-encoded, decoded and re-emitted by "
